@@ -157,20 +157,25 @@ def worker(item):
 def plans(tier, seed):
     pal = (seed + 2) % 3
     if tier == "quick":
-        jobs = [({"psets": [0, 1], "cs_sym": ["SX", "MX"], "np": False}, [(lab, s) for _, lab, s in all_specs(3, 4, 1, pal)]),
+        jobs = [({"psets": [0, 1], "cs_sym": ["SX", "MX"], "np": False}, [(lab, s) for _, lab, s in all_specs(3, 4, 1, pal)]
+                 + [(f"harness:{k}", s) for k, s in harness_specs(pal).items()]),
                 ({"psets": [0], "cs_sym": ["SX"], "np": False, "edited": True}, [(lab, s) for _, lab, s in all_specs(3, 3, 1, pal)]),
                 ({"psets": [0], "cs_sym": [], "np": True}, [(lab, s) for _, lab, s in all_specs(3, 3, 0, pal)])]
         bounds = {"structural": "(n,m)<=(3,4), c<=1, SX and MX, with and without delta/phi",
                   "numeric_numpy": "(n,m)<=(3,3), base+uniform configurations, d=1 over the alphabets, 2 base vectors",
                   "palette": pal}
     else:
-        a = [(lab, s) for _, lab, s in all_specs(3, 4, 2, pal)]
-        b = [(lab, s) for _, lab, s in all_specs(4, 5, 1, pal) if s.n == 4]
+        a = [(lab, s) for _, lab, s in all_specs(3, 4, 1, pal)] + [(lab, s) for _, lab, s in all_specs(3, 3, 2, pal)
+                                                                  if lab.startswith("dev:") and "+" in lab]
+        b = [(lab, s) for _, lab, s in all_specs(4, 4, 1, pal) if s.n == 4]
         c = [(lab, s) for _, lab, s in all_specs(3, 4, 1, pal)]
-        jobs = [({"psets": [0, 1], "cs_sym": ["SX", "MX"], "np": False}, a + b),
-                ({"psets": [0, 1], "cs_sym": ["SX", "MX"], "np": False, "edited": True}, c),
+        jobs = [({"psets": [0, 1], "cs_sym": ["SX", "MX"], "np": False}, a),
+                ({"psets": [0], "cs_sym": ["SX"], "np": False}, b),
+                ({"psets": [0, 1], "cs_sym": ["SX", "MX"], "np": False, "edited": True}, [x for x in c if not x[0].startswith("dev:")]),
+                ({"psets": [0], "cs_sym": ["SX"], "np": False, "edited": True}, [x for x in c if x[0].startswith("dev:")]),
                 ({"psets": [0, 1], "cs_sym": [], "np": True}, c)]
-        bounds = {"structural": "(3,4) c<=2 and 4-node shapes (4,5) c<=1, SX and MX, with and without delta/phi",
+        bounds = {"structural": "(3,4) c<=1 and (3,3) c=2 on SX and MX with and without delta/phi; 4-node shapes (4,4) c<=1 on SX; "
+                                "edited-network variants on (3,4) c<=1",
                   "numeric_numpy": "(n,m)<=(3,4), c<=1, d=1, 2 base vectors", "palette": pal}
     return jobs, bounds
 
